@@ -204,6 +204,10 @@ def run_contracts(reg, contracts, lemmas, want_models=True):
             undecided_fn[c.key] = "%s: %s" % (type(e).__name__, e)
             functions.append({"function": c.key, "status": "outside-engine", "reason": str(e)})
             continue
+        except Exception as e:      # the engine met code it cannot handle: the function is undecided, never a verdict
+            undecided_fn[c.key] = "engine error %s: %s" % (type(e).__name__, str(e)[:300])
+            functions.append({"function": c.key, "status": "outside-engine", "reason": undecided_fn[c.key]})
+            continue
         functions.append({"function": c.key, "source_sha256_16": sha, "vcs": len(vcs), "return_paths": eng.nreturns})
         uses = reg.uses.get(c.key, [])
         if isinstance(uses, dict):          # {substring of the obligation name: [lemmas]}; "" = every obligation
@@ -244,8 +248,8 @@ def run_contracts(reg, contracts, lemmas, want_models=True):
     for lm in lemmas:
         try:
             eng, vcs = lemma_vcs(reg, lm)
-        except (sx.Unsupported, sx.ContractError) as e:
-            undecided_fn["lemma::" + lm.name] = str(e)
+        except Exception as e:
+            undecided_fn["lemma::" + lm.name] = "%s: %s" % (type(e).__name__, str(e)[:300])
             continue
         for vc in vcs:
             hyps = list(vc.hyps)
